@@ -138,8 +138,18 @@ int main(int argc, char ** argv) {
                     double m = c.nextDouble(), b = c.nextDouble();
                     rules.push_back(fb::UCVE::Entry{fb::UCVE::V{m, b}, pa});
                 }
+#ifdef AITOOLBOX_VERIF_UCVE_BOUNDS
+                std::vector<double> trace;
+                fb::UCVE::verifBoundsObserver = [&trace](size_t agent, double xl, double xu) {
+                    trace.push_back((double) agent); trace.push_back(xl); trace.push_back(xu);
+                };
+#endif
                 auto [a, v] = ucve(A, logtA, rules);
                 o.list(a); o << (double) v[0] << (double) v[1];
+#ifdef AITOOLBOX_VERIF_UCVE_BOUNDS
+                fb::UCVE::verifBoundsObserver = nullptr;
+                o << "T"; o.list(trace);      // (agent, x_l, x_u) per removal
+#endif
             }
         } else throw std::logic_error("unknown case kind " + kind);
     });
